@@ -6,6 +6,7 @@ package an
 import (
 	"fmt"
 	"go/ast"
+	"go/constant"
 	"go/token"
 	"go/types"
 	"os"
@@ -51,6 +52,9 @@ type Program struct {
 	vtaG *callgraph.Graph
 
 	fileOf map[*token.File]*ast.File
+
+	// Deps maps every loaded package path (module and dependencies) to its types.
+	Deps map[string]*types.Package
 }
 
 // Load loads ./... of RepoDir with all dependencies from source, type-checks
@@ -108,7 +112,13 @@ func Load(overlay map[string][]byte) (*Program, error) {
 		SSAPkg:   map[string]*ssa.Package{},
 		AllFuncs: map[*ssa.Function]bool{},
 		fileOf:   map[*token.File]*ast.File{},
+		Deps:     map[string]*types.Package{},
 	}
+	packages.Visit(pkgs, nil, func(pk *packages.Package) {
+		if pk.Types != nil {
+			p.Deps[pk.PkgPath] = pk.Types
+		}
+	})
 	for i, pk := range pkgs {
 		p.ByPath[pk.PkgPath] = pk
 		p.SSAPkg[pk.PkgPath] = ssapkgs[i]
@@ -282,4 +292,19 @@ func FuncName(fn *ssa.Function) string {
 	s := fn.String()
 	s = strings.ReplaceAll(s, ModulePath+"/", "")
 	return s
+}
+
+// ConstInt returns the value of an integer constant declared in any loaded
+// package (module or dependency).
+func (p *Program) ConstInt(pkgPath, name string) (int64, bool) {
+	tp := p.Deps[pkgPath]
+	if tp == nil {
+		return 0, false
+	}
+	c, ok := tp.Scope().Lookup(name).(*types.Const)
+	if !ok {
+		return 0, false
+	}
+	v, exact := constant.Int64Val(constant.ToInt(c.Val()))
+	return v, exact
 }
